@@ -447,6 +447,12 @@ def translate_seed(body):
                 if m and fresh is None:
                     fresh = m.group(1)
                     continue
+                m = re.match(r"^(?:int|long|LONG)\s+(\w+)\s*=\s*json_c_get_random_seed\s*\(\s*\)$", t)
+                if m and fresh is None:
+                    fresh = m.group(1)
+                    b.append("CallRandom")
+                    shown.append(t + ";")
+                    continue
                 if fresh and re.match(r"^%s\s*=\s*json_c_get_random_seed\s*\(\s*\)$" % fresh, t):
                     b.append("CallRandom")
                     shown.append(t + ";")
